@@ -9,7 +9,7 @@ import z3
 
 from . import sorts as S
 from . import types as T
-from .engine import mod_covers
+from .engine import mod_covers, mod_match
 from .engine import SV, Exec, PathEnd, PyRaise, Unsupported, _Break, _Continue, sv_bool, sv_int
 
 
@@ -305,7 +305,7 @@ def havoc_for_loop(ex: Exec, names: set[str], st: ast.stmt | None = None, heap: 
         if name != "cls":
             for mid, mname in modset:
                 if mod_covers(mname, name):
-                    conds.append(o == mid)
+                    conds.append(mod_match(mid, o))
         return z3.Lambda([o], z3.If(z3.Or(conds), z3.Select(fresh, o), z3.Select(arr, o)))
 
     if targeted or coarse_maps is None or coarse_maps:
